@@ -6,7 +6,7 @@
 # records everything under /verif/seeded/<ID>_<X>/ (patch.diff, demo.rs, meta.json).
 set -u
 id="$1"; x="$2"
-src=/tmp/seeded/$id
+src=${SEED_SRC:-/tmp/seeded}/$id
 patch=$src/patch_$x.diff; demo=$src/demo_$x.rs
 [ -s "$patch" ] && [ -s "$demo" ] || { echo "missing $patch or $demo"; exit 2; }
 wt=/var/tmp/confirm-$id-$x
@@ -44,7 +44,7 @@ python3 - "$id" "$x" "$base_demo" "$lib" "$mut_demo" "$doc" "$q" "$t" <<'PY'
 import json,sys
 id,x,base,lib,mut,doc,q,t=sys.argv[1:9]
 notes=""
-try: notes=open(f"/tmp/seeded/{id}/notes_{x}.txt").read()
+try: notes=open(__import__("os").environ.get("SEED_SRC","/tmp/seeded")+f"/{id}/notes_{x}.txt").read()
 except Exception: pass
 meta={"property":id,"variant":x,"origin":"independent sub-agent given only the property text and a scratch worktree",
  "needs_to_manifest":notes.strip()[:1500],
